@@ -286,6 +286,41 @@ func gAlpineMulti(r *rand.Rand, base string) string {
 	return s + opt(r, 60, "-r"+pick(r, alpNumsPlain))
 }
 
+// two valid versions that agree on digits, letter, hash and revision and differ in their suffix sequences only
+// (the domain of the documented suffix rule: the oracle compares the implementation with it)
+func gAlpineSufPair(r *rand.Rand) (string, string) {
+	base := gAlpineBase(r) + opt(r, 20, pick(r, []string{"a", "b", "z"}))
+	tail := opt(r, 15, "~"+pick(r, []string{"abc", "1f", "0123456789abcdef"})) + opt(r, 50, "-r"+pick(r, alpNumsPlain))
+	one := func() string { return "_" + pick(r, alpSufValid) + opt(r, 60, pick(r, alpNumsPlain)) }
+	var xs []string
+	for i, n := 0, r.Intn(4); i < n; i++ {
+		xs = append(xs, one())
+	}
+	ys := append([]string{}, xs...)
+	switch k := r.Intn(6); {
+	case k == 0 && len(ys) > 0: // drop the last suffix
+		ys = ys[:len(ys)-1]
+	case k == 1: // one more suffix
+		ys = append(ys, one())
+	case k == 2 && len(ys) > 0: // another suffix at one position
+		ys[r.Intn(len(ys))] = one()
+	case k == 3 && len(ys) > 0: // the same name without / with number 0
+		i := r.Intn(len(ys))
+		name := strings.TrimRight(ys[i], "0123456789")
+		ys[i] = name + pick(r, []string{"", "0", "1"})
+	case k == 4:
+		ys = nil
+		for i, n := 0, r.Intn(4); i < n; i++ {
+			ys = append(ys, one())
+		}
+	}
+	a, b := base+strings.Join(xs, "")+tail, base+strings.Join(ys, "")+tail
+	if r.Intn(2) == 0 {
+		return b, a
+	}
+	return a, b
+}
+
 func gAlpineBase(r *rand.Rand) string {
 	return pick(r, []string{"1.9", "1.10", "1.9.5", "1.9.10", "2", "1", "1.10.1", "0.9"})
 }
@@ -594,6 +629,9 @@ func genPair(r *rand.Rand, f *family) (string, string) {
 		default:
 			return a, f.canon(genome(r))
 		}
+	}
+	if f.name == "alpine" && r.Intn(100) < 15 {
+		return gAlpineSufPair(r)
 	}
 	if f.name == "alpine" && r.Intn(100) < 12 {
 		x := gAlpineBase(r)
